@@ -115,6 +115,7 @@ TREE_SPECS = {
     "aA": (True, ("a", "A"), (0, 1), None),           # both case variants as distinct taxa
     "aa": (False, ("a", "a"), (0, 1), None),          # one label on two distinct taxa
     "bce": (False, ("b", "c", "e"), (0, 1), 2),       # the root node carries a taxon too
+    "e_b": (False, ("", "b"), (0, 1), None),          # a taxon labelled with the empty string (pool layers only)
 }
 # name: (is_case_sensitive, namespace labels, ((leaf picks, root pick), ...))
 TL_SPECS = {
@@ -123,6 +124,8 @@ TL_SPECS = {
     "L_aA": (True, ("a", "A"), (((0, 1), None),)),
     "L_empty": (False, ("q",), ()),
 }
+TL_SPECS_EMPTY_LABEL = {"L_e_a": (False, ("", "a"), (((0, 1), None),))}      # pool layers only
+TL_SPECS_ALL = dict(TL_SPECS, **TL_SPECS_EMPTY_LABEL)
 # name: (is_case_sensitive, namespace labels, picks that carry a sequence)
 M_SPECS = {
     "M_ab": (False, ("a", "b"), (0, 1)),
@@ -130,13 +133,15 @@ M_SPECS = {
     "M_Bcy": (False, ("B", "c", "y"), (0, 1)),
 }
 # target namespaces of migrations: name -> (is_case_sensitive, labels)
-NS_TARGETS = {"ci": (False, ()), "cs": (True, ()), "pre": (False, ("A", "b"))}
+NS_TARGETS = {"ci": (False, ()), "cs": (True, ()), "pre": (False, ("A", "b")), "pre_e": (False, ("", "B")), "pre_e_cs": (True, ("", "B"))}
 
 NEWICK_DOCS = {
     "nw_ab": ("newick", "(a,b);", [["a", "b"]]),
     "nw_Ac_cd": ("newick", "(A,c);(c,d);", [["A", "c"], ["c", "d"]]),
     "nx_ab": ("nexus", "#NEXUS\nBEGIN TAXA;\n DIMENSIONS NTAX=3;\n TAXLABELS a B e;\nEND;\nBEGIN TREES;\n TREE t1 = (a,B);\nEND;\n",
               [["a", "B"]]),
+    "nw_e": ("newick", "('',b);", [["", "b"]]),
+    "nx_e_taxa": ("nexus", "#NEXUS\nBEGIN TAXA;\n DIMENSIONS NTAX=2;\n TAXLABELS '' b;\nEND;\nBEGIN TREES;\n TREE t1 = ('',b);\nEND;\n", [["", "b"]]),
     "nx_notaxa": ("nexus", "#NEXUS\nBEGIN TREES;\n TREE t1 = (a,B);\n TREE t2 = (B,e);\nEND;\n", [["a", "B"], ["B", "e"]]),
 }
 # DataSet documents: name -> (schema, text, [tree leaf label lists], [matrix row label lists])
@@ -180,9 +185,10 @@ def tree_from_spec(name):
     return build_tree(build_ns(cs, labels), picks, root)
 
 
-POOL_NS = (False, ("a", "b", "c"))
-POOL_TREES = {"P0": ((0, 1), None), "P1": ((0, 2), None), "P2": ((1, 2), None)}     # all over ONE shared foreign namespace S
-POOL_MATRICES = {"Q0": (0, 1), "Q1": (0, 2)}                                        # over the same S
+POOL_NS = (False, ("a", "b", "c", ""))
+# all over ONE shared foreign namespace S; P3 / P4 share the Taxon('') object
+POOL_TREES = {"P0": ((0, 1), None), "P1": ((0, 2), None), "P2": ((1, 2), None), "P3": ((3, 0), None), "P4": ((3, 1), None)}
+POOL_MATRICES = {"Q0": (0, 1), "Q1": (0, 2), "Q2": (3, 1)}                          # over the same S
 
 
 def get_tree(w, spec):
@@ -201,7 +207,7 @@ def make_pool(w, matrices=False):
         for i, (name, picks) in enumerate(sorted(POOL_MATRICES.items())):
             m = DnaCharacterMatrix(taxon_namespace=w.S)
             for j, pk in enumerate(picks):
-                m._taxon_sequence_map[w.S._taxa[pk]] = m.character_sequence_type(["TA", "TC", "TG", "TT"][2 * i + j])
+                m._taxon_sequence_map[w.S._taxa[pk]] = m.character_sequence_type(["TA", "TC", "TG", "TT", "GA", "GC"][2 * i + j])
             w.mpool[name] = m
 
 
@@ -216,7 +222,7 @@ def pool_key(w, cns):
 
 
 def treelist_from_spec(name):
-    cs, labels, trees = TL_SPECS[name]
+    cs, labels, trees = TL_SPECS_ALL[name]
     ns = build_ns(cs, labels)
     tl = TreeList(taxon_namespace=ns)
     for picks, root in trees:
@@ -349,6 +355,11 @@ def own_consistent(tree, site, R):
     return True
 
 
+def _ls(*labels):
+    """signature suffix naming the special label class of the witness"""
+    return "|label:empty-string" if any(l == "" for l in labels) else ""
+
+
 def relate(pre, post, mode, cs, pre_member_ids, pre_member_labels, site, R):
     """pre: [(obj,label)|None] before the call; post: [Taxon|None] after it (aligned).
     mode: 'unify' | 'nounify' | 'same' (identity)"""
@@ -366,13 +377,13 @@ def relate(pre, post, mode, cs, pre_member_ids, pre_member_labels, site, R):
     if mode == "unify":
         for (ao, al), b in pairs:
             if not leq(b._label, al, cs):
-                R.add("%s|label-changed" % site, "item with label %r now refers to a taxon labelled %r" % (al, b._label))
+                R.add("%s|label-changed%s" % (site, _ls(al)), "item with label %r now refers to a taxon labelled %r" % (al, b._label))
                 return
         for i in range(len(pairs)):
             for j in range(i + 1, len(pairs)):
                 same = leq(pairs[i][0][1], pairs[j][0][1], cs)
                 if same and pairs[i][1] is not pairs[j][1]:
-                    R.add("%s|equal-labels-on-different-taxa" % site,
+                    R.add("%s|equal-labels-on-different-taxa%s" % (site, _ls(pairs[i][0][1])),
                           "items labelled %r and %r ended up on two different taxa of a namespace with is_case_sensitive=%s" % (
                               pairs[i][0][1], pairs[j][0][1], cs))
                     return
@@ -383,7 +394,7 @@ def relate(pre, post, mode, cs, pre_member_ids, pre_member_labels, site, R):
                     return
         for (ao, al), b in pairs:
             if id(b) not in pre_member_ids and any(leq(al, l, cs) for l in pre_member_labels):
-                R.add("%s|duplicate-taxon-created" % site,
+                R.add("%s|duplicate-taxon-created%s" % (site, _ls(al)),
                       "label %r matches an existing member of the namespace, yet the item was put on a newly created taxon" % (al,))
                 return
         return
@@ -432,7 +443,7 @@ def ns_conserved(ns, pre_members, allow_dup, site, R, source_labels=None):
     new = [t for t in cur if id(t) not in pre_ids]
     for i, t in enumerate(new):
         if any(leq(t._label, l, cs) for _o, l in pre_members) or any(leq(t._label, u._label, cs) for u in new[:i]):
-            R.add("%s|duplicate-taxon-created" % site,
+            R.add("%s|duplicate-taxon-created%s" % (site, _ls(t._label)),
                   "new member %r repeats a label of the namespace (is_case_sensitive=%s): before %s, after %s" % (
                       t._label, cs, [l for _o, l in pre_members], [x._label for x in cur]))
             return
@@ -569,6 +580,8 @@ def tl_enabled(w, b):
         if n >= 1 and n - 1 + k <= cap:
             ops.append(("setslice_tl", 0, 1, ls))
     for d in sorted(NEWICK_DOCS):
+        if d in ("nw_e", "nx_e_taxa"):
+            continue                      # empty-string labels are explored in the pool layer TP
         if n + len(NEWICK_DOCS[d][2]) <= cap:
             ops.append(("read", d))
         if len(NEWICK_DOCS[d][2]) >= 2 and n + len(NEWICK_DOCS[d][2]) - 1 <= cap:
@@ -1105,7 +1118,7 @@ def _read_labels(new_trees, doc_trees, ns, site, R):
         for x in got:
             c = _norm(x._label, cs)
             if cls2id.setdefault(c, id(x)) != id(x):
-                R.add("%s|equal-labels-on-different-taxa" % site, "label %r is on two taxa after reading" % (x._label,))
+                R.add("%s|equal-labels-on-different-taxa%s" % (site, _ls(x._label)), "label %r is on two taxa after reading" % (x._label,))
                 return
             if id2cls.setdefault(id(x), c) != c:
                 R.add("%s|different-labels-merged" % site, "two labels on one taxon after reading")
@@ -1736,7 +1749,8 @@ class CMWorld(object):
 
 
 def cm_starts(b):
-    return [("cm", 0, (), ()), ("cm", 0, ("a", "b"), (0, 1)), ("cm", 1, ("a", "A"), (0, 1)), ("cm", 0, ("a", "b", "c"), (0,))]
+    return [("cm", 0, (), ()), ("cm", 0, ("a", "b"), (0, 1)), ("cm", 1, ("a", "A"), (0, 1)), ("cm", 0, ("a", "b", "c"), (0,)),
+            ("cm", 0, ("", "b"), (0, 1))]
 
 
 def cm_key(w):
@@ -1780,7 +1794,7 @@ def cm_enabled(w, b):
     ops.append(("setitem", "taxon_foreign"))
     ops.append(("getitem", "taxon_foreign"))
     if nmem < 6:
-        for kind in ("label_new", "label_case", "label_case_cs", "taxon_foreign"):
+        for kind in ("label_new", "label_case", "label_case_cs", "taxon_foreign", "label_empty"):
             ops.append(("from_dict", kind))
         ops.append(("from_dict", "pool_taxon_0"))     # keyed by a Taxon object of the shared foreign namespace S
         ops.append(("from_dict", "pool_taxon_1"))
@@ -1790,6 +1804,7 @@ def cm_enabled(w, b):
     for tgt in ("ci", "cs", "pre", "same", "share"):
         for u in (1, 0):
             ops.append(("migrate", tgt, u))
+    ops.append(("migrate", "pre_e", 1))
     for u in (1, 0):
         ops.append(("reconstruct", u))
     ops.append(("update",))
@@ -1932,6 +1947,8 @@ def cm_apply(w, op, R):
             d = {"A": content}
         elif op[1] == "label_case_cs":
             d = {"A": content}
+        elif op[1] == "label_empty":
+            d = {"": content}
         elif op[1].startswith("pool_taxon_"):
             d = {w.S._taxa[int(op[1][-1])]: content}
         else:
@@ -2464,6 +2481,18 @@ def tp_enabled(w, b):
     cap = b["max_trees"]
     ops = []
     for name in sorted(w.pool):
+        if name == "P2":
+            continue
+        if name in ("P3", "P4"):
+            # the two trees that share S's Taxon(''): every strategy once, one representative per accession path
+            if n + 1 <= cap:
+                for st in "mna":
+                    ops.append(("append", name, st))
+                ops.append(("extend", (name,)))
+                ops.append(("ctor_list", name))
+            if n >= 1:
+                ops.append(("setitem", 0, name))
+            continue
         if n + 1 <= cap:
             for st in "mna":
                 ops.append(("append", name, st))
@@ -2476,9 +2505,25 @@ def tp_enabled(w, b):
         if n >= 1:
             ops.append(("setitem", 0, name))
             ops.append(("setslice", 0, 1, (name,)))
+    # fresh foreign material whose taxon is labelled '' (a distinct Taxon('') in a distinct namespace every time)
+    if n + 1 <= cap:
+        for st in "mna":
+            ops.append(("append", "e_b", st))
+        ops.append(("insert", "e_b", "m"))
+        ops.append(("iadd", ("e_b",)))
+        ops.append(("setslice", 0, 0, ("e_b",)))
+        ops.append(("add", ("e_b",)))
+        ops.append(("extend_tl", "L_e_a"))
+        ops.append(("setslice_tl", 0, 0, "L_e_a"))
+        ops.append(("read", "nw_e"))
+        ops.append(("read", "nx_e_taxa"))
+    if n >= 1:
+        ops.append(("setitem", 0, "e_b"))
     for tgt in ("ci", "cs", "pre", "S", "same", "share"):
         for u in (1, 0):
             ops.append(("migrate", tgt, u))
+    ops.append(("migrate", "pre_e", 1))
+    ops.append(("migrate", "pre_e_cs", 1))
     for u in (1, 0):
         ops.append(("reconstruct", u))
     ops.append(("update",))
@@ -2528,12 +2573,21 @@ def op_family(op):
 
 
 def after_tag(ops):
+    """'import+<namespace changes>' of the earlier operations; empty unless the container's namespace was
+    changed before (only then can the history matter for an import)"""
     fams = []
+    imported = False
     for o in ops:
         f = op_family(o)
-        if f is not None and f not in fams:
+        if f is None or f == "attach_taxon_namespace":
+            continue
+        if f.startswith("import("):
+            imported = True
+        elif f not in fams:
             fams.append(f)
-    return "+".join(fams)
+    if not fams:
+        return ""
+    return ("import+" if imported else "") + "+".join(fams)
 
 
 class DPWorld(DSWorld):
@@ -2563,6 +2617,8 @@ def dp_enabled(w, b):
     if tls:
         n = len(tls[0]._trees)
         for name in sorted(w.pool):
+            if name in ("P2", "P4"):
+                continue                   # P0/P1 share 'a', P3 carries '': enough for this layer
             for api in POOL_IMPORT_APIS:
                 if api == "setitem":
                     if n >= 1:
@@ -2595,7 +2651,7 @@ def dp_enabled(w, b):
 # memo of deepcopy" (i.e. entries made by one call are seen by the next call that gets the same dict),
 # and "any mappings here take precedence over all other options ... regardless of, e.g. label values".
 
-MM_SOURCES = {"s_ci": (False, ("a", "b", "c")), "s_cs": (True, ("a", "A", "b"))}
+MM_SOURCES = {"s_ci": (False, ("a", "b", "c")), "s_cs": (True, ("a", "A", "b")), "s_e": (False, ("", "b", "c"))}
 # name: (class, content)   trees = (leaf picks, root pick); matrix = picks carrying a sequence
 MM_CONTAINERS = {
     "L1": ("TreeList", (((0, 1), None), ((0, 2), None))),
@@ -2657,7 +2713,8 @@ class MMWorld(object):
 
 
 def mm_starts(b):
-    return [("mm", s, t, m) for s in sorted(MM_SOURCES) for t in ("ci", "cs", "pre") for m in MM_MEMO_MODES]
+    return [("mm", s, t, m) for s in sorted(MM_SOURCES) for t in (("ci", "cs", "pre_e") if s == "s_e" else ("ci", "cs", "pre"))
+            for m in MM_MEMO_MODES]
 
 
 def _mm_items(c):
@@ -2725,7 +2782,8 @@ def mm_apply(w, op, R):
     unify = bool(u)
     c = w.cont[name]
     N = w.N
-    site = "%s(memo=%s,unify=%s)|%s-container" % (mm_site(op), w.mode, unify, ORD[min(len(w.done), 3)])
+    msite = "%s(memo=%s,unify=%s)|%s-container" % (mm_site(op), w.mode, unify, ORD[min(len(w.done), 3)])   # memo-related kinds
+    site = "%s(unify_taxa_by_label=%s)" % (mm_site(op), unify)                                              # everything else
     kw = w.kwargs(unify)
     pre = _mm_items(c)
     n_mem = members(N)
@@ -2786,10 +2844,10 @@ def mm_apply(w, op, R):
             want = w.model[id(tx)]
             if b is not want:
                 if id(tx) in w.seeded:
-                    R.add("%s|memo-entry-ignored" % site,
+                    R.add("%s|memo-entry-ignored" % msite,
                           "taxon_mapping_memo maps the old taxon %r to a given taxon (%r), the item was put on another one (%r)" % (l, want._label, b._label))
                 else:
-                    R.add("%s|old-taxon-mapped-to-several-new-taxa" % site,
+                    R.add("%s|old-taxon-mapped-to-several-new-taxa%s" % (msite, _ls(l)),
                           "one taxon_mapping_memo dict was passed to every call, yet the old taxon %r, mapped to one new taxon by an "
                           "earlier call, was mapped to another new taxon now (target namespace: %s)" % (l, [x._label for x in N._taxa]))
                 return
@@ -2805,7 +2863,7 @@ def mm_apply(w, op, R):
             w.model.setdefault(id(tx), b)
             got = w.memo.get(tx)
             if got is not b:
-                R.add("%s|memo-not-filled" % site,
+                R.add("%s|memo-not-filled" % msite,
                       "after the call the dict passed as taxon_mapping_memo %s for the old taxon %r that the call mapped to a new taxon" % (
                           "has no entry" if got is None else "has another entry", l), fatal=False)
                 break
@@ -2830,7 +2888,7 @@ def mm_apply(w, op, R):
         for tx_id, new in w.model.items():
             seen_map.setdefault(tx_id, set()).add(id(new))
         if any(len(v) > 1 for v in seen_map.values()):
-            R.add("%s|old-taxon-mapped-to-several-new-taxa" % site, "model inconsistency")
+            R.add("%s|old-taxon-mapped-to-several-new-taxa" % msite, "model inconsistency")
 
 
 # ===========================================================================
